@@ -201,14 +201,18 @@ Definition rs_txns (st : run_state) : list txn := map txn_of (rs_sel st).
 Section Digest.
   Variable H : list N -> list N.
 
-  (* from the loaded (sorted) transactions on: selection, metadata, empty-set test *)
-  Definition prepare_from (cfg : run_cfg) (pr : list pentry * (lookup * list pentry)) (js : list jtxn) : res run_state :=
+  (* from the loaded (sorted) transactions on: selection, metadata, empty-set test; git = the Git input
+     reference of the run (Git storage: T07_run), None for file-system input *)
+  Definition prepare_with (git : option MetaText.git_in) (cfg : run_cfg) (pr : list pentry * (lookup * list pentry))
+             (js : list jtxn) : res run_state :=
     let sel := run_filter cfg js in
-    res_bind (MetaText.make_items H (rc_audit cfg) (rc_algo cfg) None (filter_desc cfg) (map uuid_of sel)) (fun md =>
+    res_bind (MetaText.make_items H (rc_audit cfg) (rc_algo cfg) git (filter_desc cfg) (map uuid_of sel)) (fun md =>
     match sel with
     | [] => Err E_empty_set
     | _ => Ok (mkRunState sel md (fst pr) (fst (snd pr)) (snd (snd pr)))
     end).
+  Definition prepare_from (cfg : run_cfg) (pr : list pentry * (lookup * list pentry)) (js : list jtxn) : res run_state :=
+    prepare_with None cfg pr js.
 
   Definition run_prepare (cfg : run_cfg) (jtext : list N) (ptext : option (list N)) : res run_state :=
     res_bind (price_setup cfg ptext) (fun pr =>
